@@ -24,6 +24,8 @@ import (
 	"sort"
 	"sync"
 	"time"
+
+	"github.com/versity/versitygw/verifhook"
 )
 
 const (
@@ -269,6 +271,7 @@ func (s *IAMServiceInternal) readIAMData() ([]byte, error) {
 	retries := 0
 
 	for {
+		verifhook.At("iamstore.lookup")
 		b, err := os.ReadFile(filepath.Join(s.dir, iamFile))
 		if errors.Is(err, fs.ErrNotExist) {
 			// racing with someone else updating
@@ -308,6 +311,7 @@ func (s *IAMServiceInternal) storeIAM(update UpdateAcctFunc) error {
 	fname := filepath.Join(s.dir, iamFile)
 
 	for {
+		verifhook.At("iamstore.reading")
 		b, err := os.ReadFile(fname)
 		if errors.Is(err, fs.ErrNotExist) {
 			// racing with someone else updating
@@ -332,6 +336,7 @@ func (s *IAMServiceInternal) storeIAM(update UpdateAcctFunc) error {
 		// reset retries on successful read
 		retries = 0
 
+		verifhook.At("iamstore.removing")
 		err = os.Remove(fname)
 		if errors.Is(err, fs.ErrNotExist) {
 			// racing with someone else updating
@@ -352,11 +357,14 @@ func (s *IAMServiceInternal) storeIAM(update UpdateAcctFunc) error {
 		// can go wrong, but the remove should barrier other gateways
 		// from trying to write backup at the same time. Only one
 		// gateway will successfully remove the file.
+		verifhook.At("iamstore.backingup")
 		os.WriteFile(filepath.Join(s.dir, iamBackupFile), b, iamMode)
 
+		verifhook.At("iamstore.updating")
 		b, err = update(b)
 		if err != nil {
 			// update failed, try to write old data back out
+			verifhook.At("iamstore.restoring")
 			os.WriteFile(fname, datacopy, iamMode)
 			return fmt.Errorf("update iam data: %w", err)
 		}
@@ -388,6 +396,7 @@ func (s *IAMServiceInternal) writeTempFile(b []byte) error {
 		return fmt.Errorf("write temp file: %w", err)
 	}
 
+	verifhook.At("iamstore.renaming")
 	err = os.Rename(f.Name(), fname)
 	if err != nil {
 		return fmt.Errorf("rename temp file: %w", err)
